@@ -377,7 +377,7 @@ PROPS["C17"]["decides"] += "; no allocation in the deserialisation code is sized
 PROPS["C11"]["rules"].append(sub(_cached("algo.negcycle", algo_rules.negative_cycle_suffix), lambda f, s: True, 2))
 PROPS["C11"]["decides"] += "; find_negative_cycle keeps the walk from the first repeated node onwards (path[pos..])"
 _idit = _cached("guard.id_iterator", guard.id_iterator)
-for _pid in ("C04", "C06"):
+for _pid in ("C04", "C06", "C18"):
     PROPS[_pid]["rules"].append(sub(_idit, lambda f, s: True, 3))
     PROPS[_pid]["decides"] += "; MatrixGraph's IdIterator skips removed ids in a loop and yields only ids < upper_bound"
 # C07 (algorithms depend only on the abstract graph) also carries every algorithm-specific structural clause
@@ -387,6 +387,26 @@ for _pid, _fn, _floor, _txt in _ALGO:
 PROPS["C07"]["rules"] += [sub(_cached("algo.negcycle", algo_rules.negative_cycle_suffix), lambda f, s: True, 2), sub(_visit, lambda f, s: True, 14)]
 PROPS["C07"]["decides"] += "; plus the algorithm-specific structural clauses listed under C09-C12, C15, C16, C20 (visit-once guards, MST stream positions, " \
                            "low-link rule, unfiltered k-shortest relaxation, residual BFS endpoint, labeling write-back, simple-path target exclusion)"
+
+PROPS["C03"]["rules"].append(sub(_cached("table.graphmap_iters", table.graphmap_iters), lambda f, s: True, 8))
+PROPS["C03"]["decides"] += "; the adjacency filters of neighbors()/neighbors_directed() keep exactly the documented entries (decision table over entry " \
+                           "direction x queried direction x self-loop)"
+
+_R4 = [
+    (("C04", "C06", "C07"), algo_rules.id_storage, 4, "IdStorage resizes its element vector only for a fresh id and lowers upper_bound one step at a time"),
+    (("C09", "C07"), algo_rules.workspace_reset, 2, "a direct push onto a Dfs workspace stack is dominated by reset/move_to/clear"),
+    (("C11", "C07"), algo_rules.spfa_dequeue, 3, "spfa marks the popped vertex dequeued before scanning its edges"),
+    (("C12",), algo_rules.from_elements_orientation, 2, "FromElements keeps each Element::Edge's orientation (from <- source, to <- target)"),
+    (("C14",), algo_rules.ordermap_growth, 1, "OrderMap.node_to_pos grows only by resize(node_bound()), never by push"),
+    (("C15", "C07"), algo_rules.matching_accessor, 1, "Matching::mate reads the mate vector bounds-checked"),
+    (("C16", "C07"), algo_rules.ap_root_test, 3, "articulation_points' root test does not use discovery times"),
+    (("C20", "C07"), algo_rules.grow_then_index, 2, "a vector grown under `len <= ix` gets a length derived from ix (or an index bound)"),
+]
+for _pids, _fn, _floor, _txt in _R4:
+    for _pid in _pids:
+        PROPS[_pid]["rules"].append(sub(_cached("algo." + _fn.__name__, _fn), lambda f, s: True, _floor))
+        if _pid != "C07":
+            PROPS[_pid]["decides"] += "; " + _txt
 
 WITNESSES = {
     "C01": ["frozen_no_add_node", "graph_nodes_private"],
